@@ -115,6 +115,11 @@ def gen_history(rng, plain=None):
             kind = rng.choice(['exists', 'exists', 'download', 'download_stream', 'delete'])
         if kind in ('upload', 'upload_stream'):
             ops.append([kind, name, gen_payload(rng, chunk).hex()])
+            if rng.random() < 0.15:
+                ops.append(['exists', name])
+        elif kind == 'delete' and rng.random() < 0.5:
+            # look, delete, look again (what callers do around a removal)
+            ops += [['exists', name], ['delete', name], [rng.choice(['exists', 'exists', 'download']), name]]
         else:
             ops.append([kind, name])
     return {'names': names, 'ops': ops, 'page': page, 'chunk': chunk, 'synthetic_next': rng.random() < 0.5,
@@ -248,7 +253,38 @@ def read_tree(root: Path):
     return out
 
 
-def run_local(h, base: Path, label):
+class RenameFaults:
+    """One transient OSError (EACCES as PermissionError, EBUSY, EIO) at the rename that publishes an upload, on the
+    operations `armed` says; the adapter's retry masks it, so the history must still answer as the plain map does."""
+
+    def __init__(self, real_root: Path):
+        self.root = os.path.realpath(real_root) + os.sep
+        self.pending = None
+        self.fired = 0
+
+    def __enter__(self):
+        import errno
+        self._replace, self._rename = os.replace, os.rename
+        errors = (lambda: PermissionError(errno.EACCES, 'injected: permission denied at rename'),
+                  lambda: OSError(errno.EBUSY, 'injected: device or resource busy at rename'),
+                  lambda: OSError(errno.EIO, 'injected: I/O error at rename'))
+
+        def make(original):
+            def patched(src, dst, *a, **ka):
+                if self.pending is not None and os.path.realpath(os.fspath(dst)).startswith(self.root):
+                    k, self.pending = self.pending, None
+                    self.fired += 1
+                    raise errors[k % 3]()
+                return original(src, dst, *a, **ka)
+            return patched
+        os.replace, os.rename = make(self._replace), make(self._rename)
+        return self
+
+    def __exit__(self, *exc):
+        os.replace, os.rename = self._replace, self._rename
+
+
+def run_local(h, base: Path, label, faulty=False):
     from replicat.backends.local import Local
     conn, cwd, real = local_instance(base, label)
     old = os.getcwd()
@@ -256,6 +292,12 @@ def run_local(h, base: Path, label):
         if cwd is not None:
             os.chdir(cwd)
         b = Local(conn)
+        if faulty:
+            with RenameFaults(real) as rf:
+                def before(idx, op):
+                    rf.pending = idx if (op[0] in ('upload', 'upload_stream') and (idx + len(h['ops'])) % 2 == 0) else None
+                out = _sync_run(run_adapter(b, h, before))
+            return out, read_tree(real), rf.fired
         out = _sync_run(run_adapter(b, h))
     finally:
         os.chdir(old)
@@ -612,8 +654,12 @@ def transient_rules(backend, idx, op, h):
     salt = len(h['ops']) + len(op[1])
     if (idx * 7 + salt) % 5 >= 3:
         return []
-    kind = ('drop_body', '503', '429', 'drop_body', 'drop', '408')[(idx + salt) % 6]
+    kind = ('drop_body', '503', '429', 'drop_body', 'drop', '408', 'lost_answer')[(idx + salt) % 7]
     transfer = op[0] in ('upload', 'upload_stream', 'download', 'download_stream')
+    if op[0] == 'delete' and (idx + salt) % 2:
+        kind = 'lost_answer'
+    if kind == 'lost_answer':       # the request takes effect at the service, the answer never arrives
+        kind = ('drop_after', '500_after')[idx % 2] if op[0] in ('upload', 'upload_stream', 'delete') else '503'
     if kind == 'drop_body' and not transfer:
         kind = 'drop'
     rule = {'op': PRIMARY13[(backend, op[0])], 'kind': kind, 'count': 1}
@@ -638,6 +684,8 @@ def run_s3(h, faulty=False, real_files=None):
         if faulty:
             nfired[0] += len(svc.plan.fired)
             svc.plan = fk.FaultPlan(transient_rules('s3c', idx, op, h))
+            if op[0] == 'delete' and (idx + len(h['ops'])) % 3 == 0:
+                svc.objects.pop(op[1], None)                 # a second client removed it a moment ago
 
     def after(idx, op):
         pages.append(svc.count('LIST') - mark[0] if op[0] == 'list' else 0)
@@ -667,6 +715,9 @@ def run_b2(h, mode=('name', False), faulty=False, real_files=None):
         if faulty:
             nfired[0] += len(svc.plan.fired)
             svc.plan = fk.FaultPlan(transient_rules('b2', idx, op, h))
+            vs = svc.versions.get(op[1])
+            if op[0] == 'delete' and (idx + len(h['ops'])) % 3 == 0 and vs and vs[-1][0] == 'upload':
+                vs.append(('hide',))                          # a second client hid it a moment ago: ours gets already_hidden
 
     def after(idx, op):
         pages.append(svc.count('list_file_names') - mark[0] if op[0] == 'list' else 0)
@@ -795,6 +846,9 @@ def check_histories(hs, rep: Report, scratch: Path, spellings, with_model=True, 
             for md in modes[1:]:
                 runs['b2:by-%s%s' % (md[0], '-restricted-key' if md[1] else '')] = run_b2(h, md)[:2]
             rep.count('b2_addressed_by_' + modes[0][0] + ('_restricted' if modes[0][1] else ''))
+            o, st_, nfl = run_local(h, scratch / f'{tag}{idx}_renamefaults', labels[(idx + 2) % len(labels)], faulty=True)
+            runs['local:' + labels[(idx + 2) % len(labels)] + ':with-transient-rename-faults'] = (o, st_)
+            rep.count('masked_transient_rename_faults', nfl)
             # the same history with masked transient faults sprinkled over the requests (refinement across retries)
             fdir = scratch / f'{tag}{idx}_httpfiles'
             fdir.mkdir(parents=True, exist_ok=True)
@@ -831,7 +885,9 @@ def check_histories(hs, rep: Report, scratch: Path, spellings, with_model=True, 
                         'replay': {'history': h, 'backend': label}})
                 elif {k: v for k, v in state.items()} != ref_state:
                     rep.violations.append({
-                        'what': f'{label}: final stored objects differ from the map: {sorted(state)[:6]} vs {sorted(ref_state)[:6]}',
+                        'what': f'{label}: final stored objects differ from the map: ' + '; '.join(
+                            f'{n!r}: stored {state.get(n)!r}, the map holds {ref_state.get(n)!r}'
+                            for n in sorted(set(state) | set(ref_state)) if state.get(n) != ref_state.get(n))[:300],
                         'signature': {'backend': backend, 'kind': 'final_state'},
                         'replay': {'history': h, 'backend': label}})
     if with_model and hs:
